@@ -1,5 +1,7 @@
 """Per-property rule sets (DESIGN.md §4)."""
 from . import rules_layout as RL
+from . import rules_select as RS
+from . import rules_guard as RG
 from .facts import AnchorMissing
 
 TRUSTED = [
@@ -42,4 +44,51 @@ def c20(ctx):
     )
 
 
-PROPS = {"C20": c20}
+def c16(ctx):
+    n = 0
+    for prof in ("rel", "dev"):
+        prog = ctx.prog(prof)
+        mc = RS.MustCheck(ctx, prog, rule="R5[%s]" % prof)
+        part = prog.method("Sort1dExt", "partition_mut")
+        sel = prog.method("Sort1dExt", "get_from_sorted_mut")
+        bulk = prog.method("Sort1dExt", "get_many_from_sorted_mut")
+        edges_index = prog.find("histogram::bins::Edges<A> as std::ops::Index<usize>>::index")
+        bins_index = prog.find("histogram::bins::Bins::<A>::index")
+        grid_index = prog.find("histogram::grid::Grid::<A>::index")
+        mc.strict(part, 2)
+        mc.strict(edges_index, 2)
+        mc.strict(sel, 2)
+        mc.bulk(bulk, 2)
+        mc.bins_index(bins_index, 2)
+        mc.grid_index(grid_index, 2, bins_index)
+    ctx.floor("R5", len([o for o in ctx.obs if o["rule"].startswith("R5")]), 16, "must-check obligations (8 per profile)")
+    return dict(
+        level="other",
+        explanation="Rejection direction of C16, decided as a must-pass-through property of the CFG in both build profiles "
+                    "(release: no debug_assert!, no overflow checks; constant-false branches pruned first): every entry→return path of "
+                    "partition_mut, get_from_sorted_mut, get_many_from_sorted_mut, Edges::index, Bins::index and Grid::index passes an "
+                    "operation that diverges unless position < length (bounds-checked Index by the position, an assert comparing it with "
+                    "len(self), or delegation to a verified callee on a sub-view with the index shifted by the same amount). "
+                    "The converse (in-range calls never panic) is decided for leaf functions by R18 under C15/C16 where implemented.",
+    )
+
+
+def c17(ctx):
+    prog = ctx.prog("dev")
+    n, e = RG.rule_r6(ctx, prog)
+    ctx.floor("R6", n, 48, "tabled fallible routines")
+    ctx.floor("R6", e, 55, "error exits extracted")
+    nf = RG.rule_from_impls(ctx, prog)
+    ctx.floor("R6", nf, 6, "error conversion impls")
+    return dict(
+        level="other",
+        explanation="Decision-table conformance of every fallible routine: the ordered sequence of error exits (guard condition class, "
+                    "subjects, error variant, payload provenance) is extracted from the MIR of each of the tabled routines (private helpers "
+                    "inlined, `?` and From conversions applied symbolically) and compared with the table transcribed from the property: "
+                    "EmptyInput first, ShapeMismatch(self shape, argument shape) second, InvalidQuantile(first offending q) before the "
+                    "axis-emptiness check, sum-type routines accept empty input, derived routines delegate with unchanged roles, and no "
+                    "panic is decided before a documented error exit. Guards are pure functions of shapes and q, so each cell holds for all inputs.",
+    )
+
+
+PROPS = {"C20": c20, "C16": c16, "C17": c17}
